@@ -244,7 +244,7 @@ wait (`while flag: time.sleep(0.2)`, `while self._thread_running: pass`) is mode
 the loop would be left, so a state in which the application thread has no enabled step and nobody can enable it is a hang.
 `fixed = true` is the code that exists (`/repo` HEAD, repair 1a14b53: `while flag and thread.is_alive()`, flag reset by the waiter, `continue`
 after a failed `select`/`accept`); `fixed = false` is the handshake before that repair, kept for the regression witnesses (F-13).
-The close sequence of the receiver thread is one step here: that it terminates is `Props.C09.close_completes_partial`.
+The close sequence of the receiver thread is one step here: that it terminates is `Props.C09.close_completes`.
 -/
 namespace SecsModel.Model.TcpStop
 
@@ -390,7 +390,9 @@ def ThrPc.isAlive : ThrPc → Bool
   | .dead => false
   | _ => true
 
-def step (fixed : Bool) (s : St) : Lbl → Option St
+/-- `fixed`: the stop-flag handshake after repair 1a14b53 (else the one before); `joins`: `_connection_closed` joins the server thread that
+accepted the closed connection before it starts a new one (repair 3d90218; else it starts the new one at once) -/
+def stepV (fixed joins : Bool) (s : St) : Lbl → Option St
   | .app =>
     match s.app with
     | .before => some { s with app := .check }
@@ -438,27 +440,31 @@ def step (fixed : Bool) (s : St) : Lbl → Option St
     | .off => none
     | .run => if s.stopRcv then some { s with rcv := .closing } else none
     | .closing =>
-      if s.enabled && !s.thr.isAlive then some { s with rcv := .off, stopRcv := false, thr := .bind, sock := none, selRes := none }
+      -- close sequence, then the `_connection_closed` hook: `if self._enabled:` [join the old server thread] `self.__start_server_thread()`
+      if s.enabled then
+        if s.thr.isAlive then
+          -- the thread that accepted this connection is still in its tail (listeners, close of the listening socket)
+          (if joins then none                                         -- `self._server_thread.join()`: wait for it
+           else some { s with rcv := .off, stopRcv := false })        -- before 3d90218: the new thread's `bind` fails (EADDRINUSE), it dies
+        else some { s with rcv := .off, stopRcv := false, thr := .bind, sock := none, selRes := none }
       else some { s with rcv := .off, stopRcv := false }
-  | .peerClose => if s.rcv = .run ∧ s.thr = .dead then some { s with rcv := .closing } else none
+  -- the peer may close as soon as the connection exists, also while the accepting thread still runs the `on_connected` listeners
+  | .peerClose => if s.rcv = .run then some { s with rcv := .closing } else none
 
-def run (fixed : Bool) : St → List Lbl → Option St
+/-- the code that exists joins (`/repo` 3d90218) -/
+def step (fixed : Bool) (s : St) : Lbl → Option St := stepV fixed true s
+
+def runV (fixed joins : Bool) : St → List Lbl → Option St
   | s, [] => some s
-  | s, l :: ls => match step fixed s l with
-    | some s' => run fixed s' ls
+  | s, l :: ls => match stepV fixed joins s l with
+    | some s' => runV fixed joins s' ls
     | none => none
+
+def run (fixed : Bool) : St → List Lbl → Option St := runV fixed true
 
 def stuck (s : St) : Bool := s.app = .spin && s.flag && !s.thr.isAlive && !s.enabled
 
 def labels : List Lbl := [.app, .thr true, .thr false, .rcv, .peerClose]
-
-/-- **The peer closes while the accepting thread is still in its tail** (`on_connected` listeners, `shutdown/close` of the listening
-socket); NOT part of `step` (whose `peerClose` waits for that thread to end — the assumption stated in the header).  The receiver thread
-then runs its close sequence and the `_connection_closed` hook (`rcv` step, `closing`): it starts a new server thread although the old one
-is alive and still holds the listening socket; the new thread's `bind` fails with EADDRINUSE and it dies — in this model: no restart
-happens (`closing` restarts only when `thr` is dead).  Used by the witness `Props.C09.early_close_leaves_endpoint_deaf`. -/
-def earlyPeerClose (s : St) : Option St :=
-  if s.rcv = .run ∧ (s.thr = .listen ∨ s.thr = .shutdown) then some { s with rcv := .closing } else none
 
 /-- enabled, but nobody listens and nobody is connected: the endpoint can never be reached again -/
 def deaf (s : St) : Bool := s.enabled && !s.thr.isAlive && s.rcv = .off && s.app = .before
